@@ -511,6 +511,25 @@ class DecayMegacomplexMatrix(Contract):
         yield "column_of_compartment_is_sum_A_exp_minus_rate_t", L.and_(*cells)
 
 
+def _decay_matrix_sweep(self, tier, seed):
+    from contracts.common import native_sweep
+
+    cases = [{"kind": kind, "n": n, "nt": 2} for kind in ("decay-sequential", "decay-parallel", "decay-chain") for n in ((4, 6) if tier == "quick" else (4, 5, 6, 8))]
+
+    def env(case, rng):
+        ks = sorted({round(rng.uniform(0.05, 3.0), 3) for _ in range(case["n"] * 3)})
+        rng.shuffle(ks)
+        e = {f"k_{i}": ks[i] for i in range(case["n"])}
+        e.update({f"j_{i}": round(rng.uniform(0.1, 2.0), 3) for i in range(case["n"])})
+        e["j_u"] = 0.5
+        return e
+
+    return native_sweep(self, cases, envs=env, seed=seed)
+
+
+DecayMegacomplexMatrix.bounded_checks = _decay_matrix_sweep
+
+
 class DecayAssociatedData(Contract):
     """retrieve_decay_associated_data: DAS = SAS·A^T, lifetimes = 1/rates, reported A / K matrices."""
 
